@@ -32,5 +32,23 @@ PROPS['C14'] = dict(
     U('line_double_n6', 'C14_line.cpp', ['VP_N=6', 'VP_T=double'], tiers=['thorough'], weight=6),
   ])
 
+# ------------------------------------------------------------------------------------------------ C10
+_c10 = []
+for p in (2, 3, 5, 7, 13):
+    _c10.append(U('zp_elem_p%d' % p, 'C10_elem.cpp', ['VP_KIND=1', 'VP_P=%d' % p], weight=2))
+for p in (3, 7):
+    _c10.append(U('zp_shared_p%d' % p, 'C10_elem.cpp', ['VP_KIND=2', 'VP_P=%d' % p], weight=2))
+_c10.append(U('z2_elem', 'C10_elem.cpp', ['VP_KIND=3'], weight=1))
+for lo, hi in ((2, 3), (2, 5), (3, 5)):
+    _c10.append(U('mfs_elem_%d_%d' % (lo, hi), 'C10_elem.cpp', ['VP_KIND=4', 'VP_LO=%d' % lo, 'VP_HI=%d' % hi], weight=4))
+_c10.append(U('mfs_shared_2_5', 'C10_elem.cpp', ['VP_KIND=5', 'VP_LO=2', 'VP_HI=5'], weight=4))
+for p in (31, 251): _c10.append(U('zp_elem_p%d' % p, 'C10_elem.cpp', ['VP_KIND=1', 'VP_P=%d' % p], tiers=['thorough'], weight=6))
+for lo, hi in ((2, 7), (3, 7), (5, 13)): _c10.append(U('mfs_elem_%d_%d' % (lo, hi), 'C10_elem.cpp', ['VP_KIND=4', 'VP_LO=%d' % lo, 'VP_HI=%d' % hi], tiers=['thorough'], weight=8))
+PROPS['C10'] = dict(
+  explanation='Bounded symbolic execution of the real field classes (clang IR of the headers in /repo): operands are symbolic 32-bit machine integers (full range for conversion, addition, subtraction, comparison; reduced range for the shift-and-add multiplier and the inverses), the characteristic is concrete per unit; z3 proves on every path that the result equals 64-bit exact arithmetic reduced modulo the characteristic / the CRT characterisation of partial inverses.',
+  bounds=dict(quick='Z_p element classes p in {2,3,5,7,13}, shared p in {3,7}, Z_2, small multi-fields [2,3],[2,5],[3,5]; operator classes and cohomology Field_Zp p<=13; all 32-bit operands for +,-,==,conversion; multiplier operand < modulus', thorough='+ p in {31,251}, ranges [2,7],[3,7],[5,13]'),
+  outside=['GMP-backed Multi_field classes and the cohomology Multi_field (libgmp is machine code, not encodable)', 'functional equivalence of _multiply for characteristics beyond the listed ones', 'primes above 251'],
+  units=_c10)
+
 NOT_APPLICABLE = {}
 NOTES = 'Clauses outside every claim: real thread schedules/TBB execution (engine is sequential), iostream text I/O, GMP arbitrary precision, Eigen-based Coxeter point location under general affine maps, SIMD paths of boost::unordered_flat_map (compiled with -U__SSE2__), allocation failure, inputs beyond the stated bounds.'
